@@ -15,7 +15,9 @@ Open Scope Z_scope.
        it closed (S06bd);
    (d) a file closed by the throttle holds at least minlen forwarded frames - files are
        (re)started, also in the middle of a trigger, only with minlen tokens available (S06bd);
-   (e) exactly one 'throttled' event per suppressed start and per cut, none otherwise (S06e). *)
+   (e) exactly one 'throttled' event per suppressed start and per cut, none otherwise (S06e);
+   (f) every start the wrapped recorder sees - forwarded or issued by the throttle in the middle of a
+       trigger - carries the background frame and threshold of the latest upstream start (S06f). *)
 Theorem C06_all : forall cap q fi minlen faults us,
     1 <= cap -> 1 <= q -> 1 <= fi ->
     monotone us = true ->
